@@ -69,6 +69,9 @@ structure ReqInfo where
 
 structure S where
   cfg : Cfg := ⟨[], 0⟩
+  custom : List (String × String) := []   -- WithDecoder registrations of the current server
+  snap : Proc := Proc.clean               -- process state when the current server was built
+  proc : Proc := Proc.clean               -- process state now
   ct : String := ""
   clientOk : Bool := false
   cur : Option ReqInfo := none
@@ -101,9 +104,21 @@ def handler : Handler S where
       match (kv rest "algos").bind parseAlgos, kvInt rest "max", (kv rest "ct").bind unhex with
       | some algos, some mx, some ct =>
         let cfg := (ServerConfig.mk algos mx).eff
+        let customNames : Option (List String) :=
+          match kv rest "custom" with
+          | none => some []
+          | some "-" => some []
+          | some cs => (cs.splitOn ",").mapM unhex
+        match customNames with
+        | none => (s, ["obs bad-op"])
+        | some names =>
+        let custom := names.map (fun n => (n, "xor"))
         -- ToClient fails iff a compressed type has no writer
         let ok := !isCompressed ct || (assoc Gen.Compression.writers ct).isSome
-        ({ s with cfg := cfg, ct := ct, clientOk := ok }, [if ok then "obs cfg client=ok" else "obs cfg client=err"])
+        -- a new server in the same process: it sees what earlier constructions left behind, and leaves its own trace
+        ({ s with cfg := cfg, custom := custom, snap := s.proc, proc := s.proc.construct ⟨cfg, custom⟩, ct := ct, clientOk := ok,
+                  cur := none },
+         [if ok then "obs cfg client=ok" else "obs cfg client=err"])
       | _, _, _ => (s, ["obs bad-op"])
     | "req" :: rest =>
       match kv rest "mode", (kv rest "hdr").bind unhex, (kv rest "body").bind mkBody, kvNat rest "wire", parseDec rest with
@@ -125,8 +140,9 @@ def handler : Handler S where
           let needDec : Bool := rq.encoding != "" && (garbage || decide (s.cfg.limit < rq.wire.data.length))
           let haveDec := match decIn with | .missing => false | _ => true
           -- the library-only input must be present exactly when the model needs it and the decoder is reached
-          let out := serve codec s.cfg rq
-          let reached := match assoc (buildEnabled s.cfg.enabled) rq.encoding with
+          let srv : Server := ⟨s.cfg, s.custom⟩
+          let out := serveP s.snap codec srv rq
+          let reached := match decoderFor srv rq.encoding with
             | some (.lib _) => true
             | _ => false
           if needDec && reached && !haveDec then (s, ["obs bad-op dec-input-missing"]) else
@@ -162,12 +178,13 @@ def handler : Handler S where
         | none => { s with cur := none, fails := s!"sig=C16/harness/no-outcome {kind}" :: s.fails }
         | some o =>
           let x : Exchange := { enabled := s.cfg.enabled, limit := s.cfg.limit, encoding := s.implEnc,
-                                sent := info.sent, wireLen := s.implWire, outcome := o }
+                                sent := info.sent, wireLen := s.implWire, outcome := o,
+                                custom := s.custom.map (·.1) }
           match exchangeCheck x with
           | none => { s with cur := none }
           | some sig =>
             { s with cur := none,
-                     fails := s!"sig={sig} enabled={s.cfg.enabled} limit={s.cfg.limit} encoding={s.implEnc.quote} body={info.plainLen} wire={s.implWire} saw={" ".intercalate (kind :: rest)}" :: s.fails }
+                     fails := s!"sig={sig} enabled={s.cfg.enabled} custom={s.custom.map (·.1)} limit={s.cfg.limit} encoding={s.implEnc.quote} body={info.plainLen} wire={s.implWire} saw={" ".intercalate (kind :: rest)}" :: s.fails }
     | _ => s
   onEnd := fun s =>
     match s.fails.reverse with
